@@ -380,8 +380,10 @@ def classify(tr, clause, a, b, l):
         p, i = a, b
     d = push[p - 1]
     site = L.LOCAL_SITE if d["kind"] == "local" else L.SERVER_SITE
-    if tr.get("via") in ("git", "dulwich"):
-        path = tr["via"] + "-tcp"
+    if tr.get("via") in ("git", "dulwich", "http", "subprocess"):
+        path = {"git": "git-tcp", "dulwich": "dulwich-tcp", "http": "dulwich-http", "subprocess": "subprocess-cgit"}[tr["via"]]
+        if tr["via"] == "subprocess":
+            site = "dulwich/client.py:TraditionalGitClient.send_pack"
     else:
         path = d["kind"]
     done = next((e for e in ev if e["op"] == "done" and e["p"] == p), None)
@@ -419,6 +421,19 @@ def classify(tr, clause, a, b, l):
         why = sorted({("decl" if x["hook"] != "none" else "stale" if x["old"] == "stale" else "skipped" if not x["exe"] else "failed")
                       for x in infos if x["post"] != x["c"]["new"]})
         scen = f"{path} partial failed={'+'.join(why)} race={race}"
+        # when did the refs that were refused go stale?  Another push changing a ref between this push's
+        # validation and its application is one thing (no ref is locked across the two); a ref that was
+        # already stale when validation began and still let the others through is another.
+        vstart = next((e["seq"] for e in ev if e["op"] == "validate" and e["p"] == p), None)
+        stale = [x for x in infos if x["post"] != x["c"]["new"] and x["old"] == "stale" and x["exe"]]
+        if vstart is not None and stale:
+            def went_stale(x):
+                name = os.fsdecode(L.REFNAMES[x["c"]["r"] - 1])
+                mine = next(e["seq"] for e in ev if e["op"] == "refop" and e["p"] == p and e["ref"] == name)
+                return max((e["seq"] for e in ev if e["op"] == "refop" and e["p"] != p and e["ref"] == name
+                            and e["pre"] != e["post"] and e["seq"] < mine), default=0)
+            if all(went_stale(x) < vstart for x in stale):
+                scen += " stale-before=validation"
         what = (f"atomic push applied only some of its updates: {[(x['c'], 'changed' if x['changed'] else 'not applied') for x in infos]} "
                 f"told={done['st'] if done else None}; {ctxt}")
     elif clause == "ReportIndependent":
@@ -543,8 +558,8 @@ def run(ctx):
     # R: every behaviour TLC enumerated, on the real code
     replay_space(ctx, judge, "wire-seq", behs["wire-seq"])
     replay_space(ctx, judge, "local-seq", behs["local-seq"])
-    replay_space(ctx, judge, "wire-race", behs["wire-race"], race=True, opts={"maxp": ctx.pick(3, 4)})
-    replay_space(ctx, judge, "local-race", behs["local-race"], race=True, opts={"maxp": ctx.pick(3, 4)})
+    replay_space(ctx, judge, "wire-race", behs["wire-race"], race=True, opts={"maxp": ctx.pick(2, 4)})
+    replay_space(ctx, judge, "local-race", behs["local-race"], race=True, opts={"maxp": ctx.pick(2, 4)})
     # the same racing behaviours with the contended ref packed-only / loose + packed, and one more scheduling point
     # inside every ref operation: the acquisition of <ref>.lock (between the operation's reads of packed-refs and
     # its compare-and-write under the lock).  The value "before" is then the one read when the lock is held.
@@ -611,7 +626,7 @@ def replay(ctx, path):
     tpl = _tpl(ctx.scratch)
     case = {"refs0": tr0["refs0"], "store0": tr0["store0"], "push": tr0["push"], "layout": tr0.get("layout", "loose"),
             "lockyield": tr0.get("lockyield", False)}
-    if tr0.get("via") in ("git", "dulwich"):
+    if tr0.get("via") in ("git", "dulwich", "http", "subprocess"):
         from .. import c06_git
         tr = c06_git.rerun(ctx, tpl, tr0)
     else:
